@@ -24,4 +24,6 @@ BoundsOK == bounds = Boundaries(s, 1, P0, "")
 Monotone == \A i \in 1..(Len(bounds) - 1) : bounds[i].byte < bounds[i+1].byte /\ bounds[i].line <= bounds[i+1].line
 
 Core == {"a", "1", "SP", "TAB", "NL", "CR", "DQ", "BS", "DOLLAR", "LBRACE", "RBRACE", "HASH", "SLASH", "STAR", "LT", "MINUS", "MB", "COMB", "BAD", "ASTRAL", "EXT3", "ZWJ", "VS"}
+\* grapheme-cluster alphabet for longer strings: base letter, emoji, joiner, three kinds of Extend, newline
+Clusters == {"a", "ASTRAL", "ZWJ", "COMB", "VS", "EXT3", "NL", "DQ"}
 =============================================================================
